@@ -273,6 +273,17 @@ fn cells() -> Vec<PlCase> {
                             }
                             out.push(PlCase { version: v, content: c, action: action.into(), target_membership: String::new(), probe_type: ty.into(), actor_is_target: false, actor_is_creator: false, target_is_creator: false });
                         }
+                        // an event type with a declared alias: the `events` key and the event's own type
+                        // may each use either spelling; helpers and rules must read them alike
+                        const CANON: &str = "m.call.sdp_stream_metadata_changed";
+                        const ALIAS: &str = "org.matrix.call.sdp_stream_metadata_changed";
+                        for (key, ty) in [(CANON, CANON), (ALIAS, CANON), (CANON, ALIAS), (ALIAS, ALIAS)] {
+                            let mut c = with(base(None), "events_default", th);
+                            if let Some(e) = entry {
+                                c["events"] = json!({key: lvl(e, string)});
+                            }
+                            out.push(PlCase { version: v, content: c, action: "message".into(), target_membership: String::new(), probe_type: ty.into(), actor_is_target: false, actor_is_creator: false, target_is_creator: false });
+                        }
                     }
                     let mut c = base(None);
                     if let Some(t) = th {
